@@ -616,13 +616,20 @@ func (s *Store[K, V]) tryRemoveEntry(entry *Entry[K, V], reason RemoveReason) bo
 	_, index := s.index(entry.key)
 	shard := s.shards[index]
 
+	var deleted bool
 	if reason == EXPIRED {
 		// entry might updated already
-		// update expire filed are protected by shard mutex
+		// update expire filed are protected by shard mutex, so recheck it and
+		// remove the slot with the mutex held, otherwise a Set could extend the
+		// deadline after the check and its new value would be removed as expired
+		shard.mu.Lock()
 		if expire := entry.expire.Load(); expire == 0 || expire > s.timerwheel.clock.NowNano() {
+			shard.mu.Unlock()
 			s.timerwheel.schedule(entry)
 			return false
 		}
+		deleted = shard.delete(entry)
+		shard.mu.Unlock()
 	}
 	entry.flag.SetRemoved(true)
 
@@ -653,9 +660,11 @@ func (s *Store[K, V]) tryRemoveEntry(entry *Entry[K, V], reason RemoveReason) bo
 				}
 			}
 		}
-		shard.mu.Lock()
-		deleted := shard.delete(entry)
-		shard.mu.Unlock()
+		if reason == EVICTED {
+			shard.mu.Lock()
+			deleted = shard.delete(entry)
+			shard.mu.Unlock()
+		}
 		if deleted {
 			k, v := entry.key, entry.value
 			if s.removalListener != nil {
